@@ -728,6 +728,26 @@ func c11CheckOutputs(scratch string, gm *c11GoMod, jobs []*c11Job) error {
 			j.problem = "exit 0 but no file was emitted"
 		}
 	}
+	// Go output is generated into a fresh directory OUTSIDE any Go module (so that goimports, which
+	// the generator runs on every file, cannot "repair" a missing import from packages lying around)
+	// and only now moved into the scratch module for the type-check.
+	for _, j := range byKind["go"] {
+		dst := filepath.Join(gm.dir, "gen", j.tag)
+		if j.outDir != dst {
+			os.MkdirAll(filepath.Dir(dst), 0o755)
+			if err := os.Rename(j.outDir, dst); err == nil {
+				j.outDir = dst
+			}
+		}
+	}
+	// imports of the Python and Dart service / scope files
+	for _, j := range jobs {
+		if j.run.class == "ok" && j.problem == "" {
+			if msg := c11ImportsPresent(j); msg != "" {
+				j.problem = msg
+			}
+		}
+	}
 	wg.Add(1)
 	go func() { // Go
 		defer wg.Done()
@@ -930,6 +950,14 @@ func c11RunTasks(tasks []c11Task) {
 
 func runC11(r *Rng, n int) { c11RunSuite(r, n, false) }
 
+// runC11Inc: the "only mention of an include" sweep (totality_sweep.go), every program once; -n is ignored.
+func runC11Inc(r *Rng, n int) {
+	c11SweepMode = true
+	c11RunSuite(r, len(c11Sweep()), true)
+}
+
+var c11SweepMode bool
+
 // runC11Names: the full naming matrix, every applicable (name, position) once (development and
 // thorough tier: `cc c11names`); -n is ignored.
 func runC11Names(r *Rng, n int) { c11RunSuite(r, len(c11AllProbes()), true) }
@@ -983,6 +1011,7 @@ func c11RunSuite(r *Rng, n int, namesOnly bool) {
 			var probes []c11Probe
 			all := c11AllProbes()
 			switch {
+			case c11SweepMode:
 			case namesOnly:
 				probes = []c11Probe{all[i]}
 			case i < len(cover):
@@ -990,7 +1019,13 @@ func c11RunSuite(r *Rng, n int, namesOnly bool) {
 			case r.Chance(25):
 				probes = []c11Probe{all[r.Intn(len(all))]} // incl. the recorded failing ones
 			}
-			if probes != nil {
+			if c11SweepMode {
+				sw := c11Sweep()[i]
+				p = sw.prog
+				Stat("sweep-carrier:" + sw.carrier)
+				Stat("sweep-position:" + sw.position)
+				Stat("sweep-kind:" + sw.kind)
+			} else if probes != nil {
 				p = c11ProbeProgMulti(probes)
 				StatN("probe-combinations", len(probes))
 			} else {
@@ -1015,8 +1050,7 @@ func c11RunSuite(r *Rng, n int, namesOnly bool) {
 					outDir := filepath.Join(broot, "out", tag)
 					goPrefix := ""
 					if t.lang == "go" {
-						outDir = filepath.Join(gm.dir, "gen", tag)
-						goPrefix = c11ModName + "/gen/" + tag + "/"
+						goPrefix = c11ModName + "/gen/" + tag + "/" // generated OUTSIDE the module, moved in for the type-check
 					}
 					j := &c11Job{prog: i, tag: tag, target: t, gen: c11GenArg(t, opts, goPrefix), outDir: outDir, bundle: bundle, expect: "valid", feat: p.feat, probes: probes}
 					jobs = append(jobs, j)
@@ -1124,6 +1158,50 @@ func c11FailShape(j *c11Job) string {
 		first = first[:110]
 	}
 	return first
+}
+
+var (
+	c11PyUseRe  = regexp.MustCompile(`([A-Za-z_][A-Za-z0-9_.]*)\.ttypes\.[A-Za-z_]`)
+	c11DartUseRe = regexp.MustCompile(`\bt_([A-Za-z0-9_]+)\.[A-Za-z_]`)
+)
+
+// c11ImportsPresent: every module / library prefix a Python or Dart file uses for the types of an
+// include is imported by that file (a missing import is not a syntax error, so the parsers above
+// do not see it). "" = fine.
+func c11ImportsPresent(j *c11Job) string {
+	switch {
+	case strings.HasPrefix(j.target.lang, "py"):
+		for _, f := range c11FilesWithExt(j.outDir, ".py") {
+			b, _ := os.ReadFile(f)
+			src := string(b)
+			for _, m := range c11PyUseRe.FindAllStringSubmatch(src, -1) {
+				mod := m[1]
+				if strings.Contains(src, "import "+mod+".ttypes") || strings.Contains(src, "from "+mod+".ttypes import") ||
+					strings.Contains(src, "from "+mod+" import ttypes") {
+					continue
+				}
+				// `from .ttypes import *` re-exports the modules the package's ttypes.py imports (it has no __all__)
+				if strings.Contains(src, "from .ttypes import *") {
+					tb, _ := os.ReadFile(filepath.Join(filepath.Dir(f), "ttypes.py"))
+					if strings.Contains(string(tb), "import "+mod+".ttypes") && !strings.Contains(string(tb), "__all__") {
+						continue
+					}
+				}
+				return "emitted file " + filepath.Base(f) + " uses " + mod + ".ttypes without importing it"
+			}
+		}
+	case j.target.lang == "dart":
+		for _, f := range c11FilesWithExt(j.outDir, ".dart") {
+			b, _ := os.ReadFile(f)
+			src := string(b)
+			for _, m := range c11DartUseRe.FindAllStringSubmatch(src, -1) {
+				if !strings.Contains(src, " as t_"+m[1]+";") {
+					return "emitted file " + filepath.Base(f) + " uses the library prefix t_" + m[1] + " without importing it"
+				}
+			}
+		}
+	}
+	return ""
 }
 
 func c11ProgStats(p *c11GProg) {
@@ -1235,7 +1313,6 @@ func c11ReplayBundle(bundle, expect, gen string, probe *c11Probe) (string, bool)
 		if err != nil {
 			return "run", true
 		}
-		j.outDir = filepath.Join(gm.dir, "gen", "r0")
 		// the package prefix of the recorded line is rewritten to this scratch module
 		opts := []string{}
 		if i := strings.Index(gen, ":"); i >= 0 {
@@ -1284,5 +1361,6 @@ func c11Clip(s string, n int) string {
 func init() {
 	suites["c11"] = runC11
 	suites["c11names"] = runC11Names
+	suites["c11inc"] = runC11Inc
 	lineOps["cc"] = c11ReplayCC
 }
